@@ -102,8 +102,22 @@ def check(ctx, src):
         g = pyq.contains(ll, lambda n: isinstance(n, ast.Call) and (dotted(n.func) or "").endswith("_syntax_error") and any(isinstance(a, ast.Constant) and a.value == msg for a in n.args))
         ctx.check(g is not None and g.lineno < call.lineno, "LL-GUARD", f"{R}|compile_lambda_list|{msg}", f"the guard `{msg}` is missing or comes after the construction", R, ll.lineno,
                   witness="an ill-formed lambda list reaches Python's compile() and raises ValueError/SyntaxError without Hy position", detail="present, before ast.arguments")
-    star = pyq.contains(ll, lambda n: isinstance(n, ast.If) and norm(n.test) == "rest_parms == Symbol('*')")
-    ctx.check(star is not None and any(norm(s) == "rest_ast = None" for s in star.body), "LL-WIRE", f"{R}|compile_lambda_list|bare-star", "a bare * must give vararg=None", R, ll.lineno, detail="rest_ast = None")
+    # a bare `*` is a marker, not a parameter: every binding of the variable handed to `vararg=` other than None is on a
+    # path where the rest slot is not the bare star
+    va = kw.get("vararg")
+    vname = va.id if isinstance(va, ast.Name) else None
+    binds = [n for n in ast.walk(ll) if isinstance(n, ast.Assign) and any(isinstance(x, ast.Name) and x.id == vname for t in n.targets for x in ast.walk(t))
+             and not (isinstance(n.value, ast.Constant) and n.value.value is None)] if vname else []
+    slot = ll.args.args[1].arg if len(ll.args.args) > 1 else None
+    restv = None
+    for n in ast.walk(ll):
+        if isinstance(n, ast.Assign) and isinstance(n.targets[0], ast.Tuple) and len(n.targets[0].elts) == 5 and isinstance(n.value, ast.Name) and n.value.id == slot:
+            restv = n.targets[0].elts[2].id if isinstance(n.targets[0].elts[2], ast.Name) else None
+    verdict = None
+    if binds and restv:
+        verdict = all(any(str(a) == f"{restv} != Symbol('*')" for a in pyq.atoms_expanded(b, ll)) for b in binds)
+    ctx.decide("LL-WIRE", f"{R}|compile_lambda_list|bare-star", verdict, "a bare * must give vararg=None: the rest slot is compiled as a parameter also when it is the bare star", R, ll.lineno,
+               witness="(fn [a * b] …) gets a *-parameter named `*`", detail="vararg bound only when rest is not the bare *")
     # --- compile_arguments_set
     cas = rm.func("compile_arguments_set")
     ctx.require(cas is not None, "compile_arguments_set not found")
